@@ -5,7 +5,7 @@ opts (all optional):
   auto_abs: perform_auto_task_while_absence_time; max_time; res_absence: {resource name: [steps]};
   phases: phases to snapshot (default all four); want_canon: record canonical state at 'updated';
   fault: [step, phase] -> the observer raises InjectedFault there; plain: build with library classes;
-  presim: number of earlier simulate() calls on the same object before the observed one;
+  presim: number of earlier simulate() calls on the same object before the observed one (presim_absence, presim_cut: their absence list / max_time);
   resume_from: k -> simulate(max_time=k) first, the observed run resumes it (state/log initialisation off, or restart_flags=(state, log));
   build_from + edit: objects built from spec `build_from`, run `presim` times, then edited in place (mc/edits.py) into `spec`;
   post_insert: list -> insert_absence_time_list(list) after the run; post_remove: remove_absence_time_list() after the run; reload: write/read JSON after the run and look at the loaded project;
@@ -194,7 +194,10 @@ def run(spec, opts=None, model=None, call=None):
                     os.unlink(path)
         for _ in range(int(opts.get("presim") or 0)):
             # earlier, unobserved runs on the same object (the observed run must not be influenced by them)
-            ex.m.project.simulate(**sim_kwargs(dict(opts, absence=opts.get("presim_absence", []))))
+            pk = sim_kwargs(dict(opts, absence=opts.get("presim_absence", [])))
+            if opts.get("presim_cut") is not None:
+                pk["max_time"] = opts["presim_cut"]  # the earlier run was stopped by max_time (and the project is simply simulated again afterwards)
+            ex.m.project.simulate(**pk)
         if opts.get("presim_queries"):
             # between the earlier run(s) and the observed one every read-only helper is called once with default arguments
             read_only_calls(ex.m.project)
